@@ -18,12 +18,12 @@ import (
 )
 
 type sioCase struct {
-	Name      string          `json:"name"`
-	Proto     string          `json:"proto"`
-	Pre       []vp.StdioWrite `json:"pre"`    // written by the plugin as soon as it serves (maybe before the host attaches)
-	AttachMs  int             `json:"attach_delay_ms"`
-	Script    []vp.StdioWrite `json:"script"` // written on the host's request after attaching
-	WithRPC   bool            `json:"with_rpc"`
+	Name     string          `json:"name"`
+	Proto    string          `json:"proto"`
+	Pre      []vp.StdioWrite `json:"pre"` // written by the plugin as soon as it serves (maybe before the host attaches)
+	AttachMs int             `json:"attach_delay_ms"`
+	Script   []vp.StdioWrite `json:"script"` // written on the host's request after attaching
+	WithRPC  bool            `json:"with_rpc"`
 }
 
 func expectedStream(ws []vp.StdioWrite, stream string) ([]byte, []int) {
